@@ -252,6 +252,25 @@ func C12(p *ir.Program, r *report.R) {
 		}
 	}
 
+	// (d') "this is the part set that was signed": HasHeader compares the WHOLE header. The Merkle root
+	// alone does not fix the number of leaves (an inner node's preimage is a valid two-leaf tree under the
+	// same root): only Total pins the shape, so a comparison by hash keeps a forged, shorter part set.
+	{
+		hh := p.Func("types", "PartSet.HasHeader")
+		okH := false
+		for _, rt := range ir.Returns(hh) {
+			v := ir.Render(rt.Results[0])
+			if v == "false" {
+				continue
+			}
+			okH = strings.HasPrefix(v, "types.PartSetHeader.Equals(types.PartSet.Header(ps),header)") || strings.HasPrefix(v, "types.PartSetHeader.Equals(header,types.PartSet.Header(ps))")
+			r.Check("K5", "types.(*PartSet).HasHeader/whole-header", p.InstrPos(rt.Instr), okH, "HasHeader is Header().Equals(header) (Total and Hash): "+short(v, 100))
+		}
+		if !okH {
+			r.Check("K5", "types.(*PartSet).HasHeader/whole-header/found", p.Pos(hh.Pos()), false, "a return comparing the whole header")
+		}
+	}
+
 	// (e) reassembly
 	{
 		fn := p.Func("consensus", "ConsensusState.addProposalBlockPart")
